@@ -48,6 +48,9 @@ pub struct Input {
     /// per file: does its last line end with a newline? (missing entries
     /// mean yes)
     pub trailing_newline: Vec<bool>,
+    /// size of a stale file already sitting at the output path (0 = none);
+    /// the command is then run with --force
+    pub stale_output: usize,
 }
 
 #[derive(Clone, Debug, PartialEq, Eq)]
@@ -143,6 +146,9 @@ fn argv_for(input: &Input, cfg: Option<&RunCfg>, inputs: &[PathBuf], out: &Path,
         Mode::Min => a.push("--min".into()),
         _ => {}
     }
+    if input.stale_output > 0 {
+        a.push("--force".into());
+    }
     match cfg {
         None => a.push("--sorted".into()),
         Some(c) => {
@@ -200,6 +206,11 @@ pub fn invoke(input: &Input, cfg: &RunCfg, dir: &Path) -> Invocation {
     std::fs::create_dir_all(dir.join("tmp")).expect("harness: create run dir");
     let inputs = input.write_files(dir);
     let out = dir.join("out.fst");
+    if input.stale_output > 0 {
+        // something longer than any FST these inputs can produce
+        let junk: Vec<u8> = (0..input.stale_output).map(|i| (i * 31 + 7) as u8).collect();
+        std::fs::write(&out, junk).expect("harness: stale output");
+    }
     let argv = Arc::new(argv_for(input, Some(cfg), &inputs, &out, &dir.join("tmp")));
     let rec = Arc::new(Mutex::new(Rec::default()));
     let result: Arc<Mutex<Option<Result<(), String>>>> = Arc::new(Mutex::new(None));
@@ -273,6 +284,7 @@ pub fn sorted_build(input: &Input, dir: &Path) -> Result<Vec<u8>, String> {
     let sorted = Input {
         mode: input.mode,
         trailing_newline: vec![],
+        stale_output: 0,
         files: vec![model
             .iter()
             .map(|(k, v)| (String::from_utf8_lossy(k).to_string(), *v))
@@ -425,7 +437,8 @@ pub fn run_case(case: &Case, dir: &Path) -> CaseRun {
         }
     }
     // inputs without repeated keys: byte identity with the sorted build
-    if violation.is_none() && !case.input.has_repeats() {
+    let cr_keys = case.input.files.iter().any(|f| f.iter().any(|(k, _)| k.contains('\r')));
+    if violation.is_none() && !case.input.has_repeats() && !cr_keys {
         if let Some((_, fb)) = &first {
             match sorted_build(&case.input, &dir.join("s")) {
                 Err(e) => violation = v("C19.sorted_build_failed", e),
